@@ -138,6 +138,10 @@ def gen_plan(seed: int, run: int, tier: str) -> dict:
         "same_pid": rng.random() < 0.2,
         "p_w": rng.choice([0.02, 0.05, 0.15, 0.4]),
         "max_faults": rng.choice([1, 1, 2]) if config == "crash" else (1 if config == "errno" else 0),
+        # simulated time that passes between the last fault and the "later runs" of the recovery
+        # phase (own stream, so every other draw of the plan stays what it was): strays of a
+        # crash are then minutes / weeks old when the next run meets them
+        "recovery_gap": random.Random(f"{seed}:C24gap:{run}").choice([0, 0, 1200, 7200, 86400 * 40]),
     }
     return {"engine": "cache_conc", "seed": seed, "run": run, "config": config,
             "texts": texts, "actors": actors, "pre": pre, "policy": policy, "knobs": knobs,
@@ -286,6 +290,25 @@ def execute(plan: dict) -> dict:
         for a in plan["actors"]:
             spawn(a["name"], a["text"], a["target"], a["path"])
         sim.run()
+
+        # ---- simulated time passes: file times are re-stamped in simulated-clock coordinates
+        # (the sandbox files carry real timestamps, the code under test reads the simulated
+        # clock), then the clock jumps; a run that compares st_mtime with time.time() sees the
+        # strays of the crash as `gap` seconds old
+        gap = float(knobs.get("recovery_gap", 0) or 0)
+        if gap > 0:
+            n_aged = 0
+            for dirpath, _dirs, fnames in os.walk(sb.path("tmp")):
+                for fn in fnames:
+                    try:
+                        kernel._REAL["os.utime"](os.path.join(dirpath, fn), (sim.vclock, sim.vclock))
+                        n_aged += 1
+                    except OSError:
+                        pass
+            sim.vclock += gap
+            stats["probe:recovery_after_time_gap"] = 1
+            if any(fn.endswith(".tmp") for _d, _s, fns in os.walk(sb.path("tmp")) for fn in fns):
+                stats["probe:aged_stray_tmp_met_by_later_run"] = 1
 
         # ---- recovery phase: two fresh cached runs per (text, target) seen
         sim.phase_kind = "recovery"  # type: ignore[attr-defined]
@@ -466,6 +489,10 @@ def reductions(plan: dict) -> Iterator[dict]:
     if plan["knobs"].get("same_pid"):
         p = clone()
         p["knobs"]["same_pid"] = False
+        yield p
+    if plan["knobs"].get("recovery_gap"):
+        p = clone()
+        p["knobs"]["recovery_gap"] = 0
         yield p
     # remove text edits
     for i, t in enumerate(plan["texts"]):
